@@ -1647,8 +1647,9 @@ def rule_select(rep, std):
     # initialisation style of the payload
     news = []
     for f in ir.functions(d):
-        if f.get("name") == "construct" and ir.is_template_pattern(d, f):
-            news += [(f, x) for x in ir.walk_expr(f) if x.get("kind") == "CXXNewExpr"]
+        # the new-expressions that build the payload from the user's value: in construct() or in the helpers it hands the forwarded value to
+        if ir.is_template_pattern(d, f) and "xany" in (d.where(f) or ""):
+            news += [(f, x) for x in ir.walk_expr(f) if x.get("kind") == "CXXNewExpr" and (f.get("name") == "construct" or "forward<" in d.text(x).replace(" ", ""))]
     if not news:
         rep.inconclusive("C06.sel", "any::construct", "payload initialisation style", detail="no new-expression found in the pattern of construct")
     for f, x in news:
